@@ -48,6 +48,8 @@ def build_arrays(rng, n):
             ".strided": big[::2],                  # same values, not contiguous
             ".rev": base[::-1],                    # negative stride
             ".2dF": np.asfortranarray(base.reshape(n // 2, 2)),
+            # same shape, dtype and bytes in memory as ".2d", other axis order (other values)
+            ".2dK": base.reshape(2, n // 2).T,
             ".vals_i8": np.round(base * 8).astype(np.int64),
             ".vals_f8": np.round(base * 8).astype(np.float64),   # same values, other dtype
             ".vals_f4": base.astype(np.float32),
@@ -100,13 +102,13 @@ def build_calls(rng, arrays, fam, n_target):
         return b0 + suffix, b1 + suffix
 
     same_len = ["", ".copy", ".i8", ".u8", ".be", ".strided", ".rev", ".vals_i8", ".vals_f8",
-                ".vals_f4", ".bad", ".f4", ".2d", ".2dT", ".2dF"]
+                ".vals_f4", ".bad", ".f4", ".2d", ".2dT", ".2dF", ".2dK"]
     # 1. KDE calls on (x, y) of one layout family
     for fn in KDE:
         for suf in same_len:
             for rep in range(2):
                 x, y = pair(suf)
-                via = "inner" if suf in (".2d", ".2dT", ".2dF", ".strided", ".rev") \
+                via = "inner" if suf in (".2d", ".2dT", ".2dF", ".2dK", ".strided", ".rev") \
                     else str(rng.choice(["public", "inner"]))
                 style = int(rng.integers(0, 3))
                 if style == 0:
@@ -118,6 +120,13 @@ def build_calls(rng, arrays, fam, n_target):
                     c = {"fn": fn, "via": via, "args": [],
                          "kwargs": {"events_x": _arr(x), "events_y": _arr(y)}}
                 calls.append(c)
+                if suf == ".2d":
+                    # sibling with the memory-order twin of both arguments
+                    xk, yk = x[:-3] + ".2dK", y[:-3] + ".2dK"
+                    calls.append({"fn": fn, "via": "inner", "args": [_arr(xk), _arr(yk)],
+                                  "kwargs": {}})
+                    calls.append({"fn": fn, "via": "inner", "args": [_arr(x), _arr(y)],
+                                  "kwargs": {}})
     # 2. mixed dtype views of the same bytes for x and y of one pair (all orders)
     x0, y0 = pair("")
     for fn in KDE:
@@ -181,6 +190,11 @@ def build_calls(rng, arrays, fam, n_target):
                      "args": [_arr(a), _arr(b), _val(int(samples))],
                      "kwargs": {"ret_idx": _val(ret)}}
             calls.append(c)
+            if suf == ".2d" and samples in (5, 10):
+                for sfx in (".2dK", ".2d"):
+                    calls.append({"fn": "downsample_grid", "via": "public",
+                                  "args": [_arr(a[:-3] + sfx), _arr(b[:-3] + sfx),
+                                           _val(int(samples))], "kwargs": {}})
     a, b = pair("")
     # "1" + "0" == "10": samples=1 with a falsy flag given as 0 versus samples=10
     calls.append({"fn": "downsample_grid", "via": "public",
